@@ -31,7 +31,7 @@ theorem unresolvedHere_attr (env : Env) (s : FStack) (name : Nat) (attrs : List 
 /-- The top of the stack binds the empty prefix to a real namespace. -/
 def HasDefault (L : List (Nat × Nat)) : Prop := ∃ n, (Env.emptyPrefix, n) ∈ L ∧ n ≠ Env.noNamespace
 
-theorem hasDefaultNamespace_iff (s : FStack) : s.hasDefaultNamespace = true ↔ HasDefault s.top := by
+theorem fcHasDefaultNamespace_iff (s : FStack) : s.hasDefaultNamespace = true ↔ HasDefault s.top := by
   unfold FStack.hasDefaultNamespace HasDefault
   simp only [List.any_eq_true, Bool.and_eq_true, beq_iff_eq, bne_iff_ne]
   constructor
@@ -46,11 +46,11 @@ theorem hasDefaultNamespace_iff (s : FStack) : s.hasDefaultNamespace = true ↔ 
 theorem push_default {sA sB : FStack} (d : List (Nat × Nat))
     (h : HasDefault sA.top → HasDefault sB.top) : HasDefault (sA.push d).top → HasDefault (sB.push d).top := by
   rintro ⟨n, hm, hn⟩
-  rw [push_top, mem_fullnameInfoNew] at hm
+  rw [push_top, fc_mem_fullnameInfoNew] at hm
   rcases hm with h1 | ⟨h1, h2⟩
-  · exact ⟨n, by rw [push_top, mem_fullnameInfoNew]; exact Or.inl h1, hn⟩
+  · exact ⟨n, by rw [push_top, fc_mem_fullnameInfoNew]; exact Or.inl h1, hn⟩
   · obtain ⟨m, hm2, hn2⟩ := h ⟨n, h1, hn⟩
-    exact ⟨m, by rw [push_top, mem_fullnameInfoNew]; exact Or.inr ⟨hm2, h2⟩, hn2⟩
+    exact ⟨m, by rw [push_top, fc_mem_fullnameInfoNew]; exact Or.inr ⟨hm2, h2⟩, hn2⟩
 
 /-- The check of /repo a32c6f4 passes for the clone when it passes in place. -/
 theorem noDefault_transfer (a : Bool) (sIn sCl : FStack) (h4 : HasDefault sCl.top → HasDefault sIn.top)
@@ -62,14 +62,14 @@ theorem noDefault_transfer (a : Bool) (sIn sCl : FStack) (h4 : HasDefault sCl.to
     cases hc : sCl.hasDefaultNamespace with
     | false => rfl
     | true =>
-      have := (hasDefaultNamespace_iff sIn).mpr (h4 ((hasDefaultNamespace_iff sCl).mp hc))
+      have := (fcHasDefaultNamespace_iff sIn).mpr (h4 ((fcHasDefaultNamespace_iff sCl).mp hc))
       rw [h] at this
       cases this
 
 theorem push_sub {sA sB : FStack} (d : List (Nat × Nat)) (P : Nat × Nat → Prop)
     (h : ∀ b ∈ sA.top, P b → b ∈ sB.top) : ∀ b ∈ (sA.push d).top, P b → b ∈ (sB.push d).top := by
   intro b hb hp
-  rw [push_top, mem_fullnameInfoNew] at hb ⊢
+  rw [push_top, fc_mem_fullnameInfoNew] at hb ⊢
   rcases hb with h1 | ⟨h1, h2⟩
   · exact Or.inl h1
   · exact Or.inr ⟨h b h1 hp, h2⟩
